@@ -42,6 +42,10 @@ var families = map[string]family{}
 func register(name string, f family) { families[name] = f }
 
 func main() {
+	if len(os.Args) >= 6 && os.Args[1] == "crashchild" {
+		crashChild(os.Args[2:])
+		return
+	}
 	if len(os.Args) < 3 {
 		fmt.Fprintln(os.Stderr, "usage: wharness <family> gen|run [flags]")
 		var names []string
